@@ -75,6 +75,19 @@ struct C05 {
         c.impl.api->decode(o, &di);
         std::string rp = Fmt("c05 op %u", o);
         bool need = D::NeedExpansion(o);
+        {
+            // the text of a word depends on (word, second word, settings) only: an annotated call in between changes nothing
+            D::ArArpSettings set{};
+            set.ar = {0x1234, 0xFEDC};
+            set.arp = {0x0421, 0x8C63, 0x5A5A, 0xFFFF};
+            (void)D::Do(o, 0, set);
+            auto again = D::GetTokenList(o, 0);
+            ++res.transitions, ++res.traces_validated;
+            if (again != toks) {
+                Fail(Fmt("text-depends-on-history:%s", di.name), Fmt("opcode %04X prints '%s', and '%s' after an annotated call for the same word", o, Join(toks).c_str(), Join(again).c_str()), rp);
+                return;
+            }
+        }
         auto p = c.parser->Parse(toks);
         ++res.transitions, ++res.traces_validated;
         if (p.status == Teakra::Parser::Opcode::Invalid) {
@@ -405,6 +418,13 @@ struct C02 {
             }
         }
         GenResult g;
+        {
+            // the generator's answer for a word does not depend on which words it was asked about before: a two-word instruction
+            // (mov ##imm16,ar0) and a one-word one are generated first
+            GenResult warm;
+            c.impl.api->gen_run(c.impl.m, 0x0008, 1, 0, nullptr, nullptr, &warm);
+            c.impl.api->gen_run(c.impl.m, 0x0000, 1, 0, nullptr, nullptr, &warm);
+        }
         c.impl.api->gen_run(c.impl.m, o, 1, 0, nullptr, nullptr, &g);
         if (g.need_expansion != (int)need_rec) {
             Fail(Fmt("length:generator:%s", di.name), Fmt("opcode %04X: test generator sees %d second word(s), decoder %d", o, g.need_expansion, need_rec), rp);
